@@ -204,6 +204,8 @@ def gen_cases(ctx, n_total, traced_share=0.85, clock_ok=True):
         c = dict(c)
         c["id"] = i + 1
         c["perturb"] = ctx.seed * 100000 + i
+        # rate limiter binding: a few workloads with many distinct questions run with a real rateLimit
+        c["rl"] = 400 if (c["mix"] == "distinct" and c["k"] >= 32 and c["clock"] == "none" and i % 2 == 0) else 0
         # untraced runs (no hook callback at all) only where failures are exactly known to the server
         untraced_ok = c["mix"] in ("same", "two", "distinct", "endpoints")
         c["tracer"] = not (untraced_ok and rnd.random() > traced_share)
@@ -431,7 +433,7 @@ def run(ctx, cases_override=None, repeat=1, confirm_pass=False):
         "server_requests": sum(1 for r in trace if r["ev"] == "S" and r["h"] == "start"),
         "behaviours_generated": len(behaviours), "range_behaviours": sum(1 for b in behaviours if any(a in ("r2", "r3") for a in b["ask"])), "behaviours_replayed": len(ends) - len(unreplayable), "unreplayable": len(unreplayable),
         "hook_h3": h3, "hook_h3b": h3 and has_state_hook(ctx),
-        "clock_cases": sum(1 for c in cases if c.get("clock", "none") != "none"), "evict_events": sum(1 for r in hev if r["h"] == "evict"), "model_lead_cases": len(lead_cases),
+        "clock_cases": sum(1 for c in cases if c.get("clock", "none") != "none"), "rate_limited_cases": sum(1 for c in cases if c.get("rl")), "evict_events": sum(1 for r in hev if r["h"] == "evict"), "model_lead_cases": len(lead_cases),
         "race_reports": len(race_reps), "untraced_cases": len(cases) - len({i for i in traced_cases if i <= 100000}), "transient_unreproduced": transient,
     }
     return vlib.conclude(ctx, viols, "model_checking", cov, [
